@@ -1,8 +1,8 @@
 SPECIFICATION Spec
 CONSTANTS
   ClassSet = {"a", "sp", "amp"}
-  MaxChars = 4
-  MaxParts = 5
+  MaxChars = 3
+  MaxParts = 4
   Structures = {"rich", "phon"}
   Storages = {"shared", "inline"}
   AllowCdata = FALSE
